@@ -25,11 +25,20 @@ def run(c):
                 toks = canon(l)[0]
                 lines.append('wf ' + ' '.join(toks))
                 owners.append((tag, eng, i, toks))
+    # delayed events a chart sends to its own internal queue arrive while the machine is stable and idle
+    dl_docs = delayed_docs()
+    vd = ensure_vdriver('hooks', units=['vd_run'])
+    dl_lines = ['runw %s %s 60 - %s' % (eng, d.encode().hex(), ev) for eng in ('large', 'fast') for (d, ev) in dl_docs]
+    dl_out, _ = run_lines_sharded(vd, dl_lines, timeout=600)
+    dl_owner = [(eng, k) for eng in ('large', 'fast') for k in range(len(dl_docs))]
+    for (eng, k), l in zip(dl_owner, dl_out):
+        toks = canon(l)[0]
+        lines.append('wf ' + ' '.join(toks))
+        owners.append(('delayed', eng, k, toks))
     out, _ = run_lines_sharded(vm, lines)
     bad = []
     nontriv = set()
     for (tag, eng, i, toks), o in zip(owners, out):
-        cs = cases if tag == 'sem' else fcases
         if any(t.startswith('C{:') for t in toks):
             nontriv.add(hash(tuple(toks)))
         if o != '1':
@@ -51,18 +60,45 @@ def run(c):
         if f:
             c.known(f['id'], f['what'])
     seen = set()
-    for tag, eng, i, why in sorted(bad, key=lambda b: len(G.sx_tree((cases if b[0] == 'sem' else fcases)[b[2]]['tree']))):
+    def size_of(b):
+        return len(dl_docs[b[2]][0]) if b[0] == 'delayed' else len(G.sx_tree((cases if b[0] == 'sem' else fcases)[b[2]]['tree']))
+    for tag, eng, i, why in sorted(bad, key=size_of):
         key = (eng, why.split(' at token')[0].split(':')[0])
         if key in seen:
             continue
         seen.add(key)
-        cs, rs = (cases, res) if tag == 'sem' else (fcases, fres)
         f = c.match_known({'engine': eng, 'class': key[1]})
         if f:
             c.known(f['id'], f['what'])
             continue
+        if tag == 'delayed':
+            d, ev = dl_docs[i]
+            c.violation({'kind': 'oracle', 'engine': eng, 'why': why, 'scxml': d, 'events_hex': ev,
+                         'trace': ' '.join([o for o in owners if o[0] == 'delayed' and o[1] == eng and o[2] == i][0][3]),
+                         'replay_cmd': "echo 'runw %s %s 60 - %s' | /verif/.build/vdriver-hooks/vdriver" % (eng, d.encode().hex(), ev)})
+            continue
+        cs, rs = (cases, res) if tag == 'sem' else (fcases, fres)
         c.violation(case_replay(c, cs[i], {'kind': 'oracle', 'engine': eng, 'why': why, 'trace': rs[eng][i][:2000]}))
     if broken and not bad:
         for b in broken:
             c.violation({'kind': 'obligation', 'theorem': b['name'], 'why': b.get('why', '')}, no_input=True)
     return c.finish()
+
+
+def delayed_docs():
+    """documents whose delayed <send> to their own internal / external queue is delivered while the machine is
+    stable and idle (the driver waits after the last external event)"""
+    hdr = '<scxml xmlns="http://www.w3.org/2005/07/scxml" version="1.0" datamodel="null" name="m">'
+    docs = []
+    for target in ('#_internal', ''):
+        for delay in ('50ms', '150ms'):
+            tg = (' target="%s"' % target) if target else ''
+            docs.append((hdr + '<state id="s1"><onentry><send event="tick"%s delay="%s" vid="101"/></onentry>'
+                         '<transition event="tick" target="s2" vid="102"/></state>'
+                         '<state id="s2"><onentry><send event="tock"%s delay="%s" vid="103"/><raise event="now" vid="104"/></onentry>'
+                         '<transition event="tock" target="s3" vid="105"/><transition event="now" vid="106"/></state>'
+                         '<state id="s3"><transition event="e" target="s4" vid="107"/></state><final id="s4"/></scxml>' % (tg, delay, tg, delay), ''))
+            docs.append((hdr + '<parallel id="s1"><state id="s2"><onentry><send event="a"%s delay="%s" vid="101"/></onentry>'
+                         '<transition event="a" target="s3" vid="102"/></state><state id="s5"><state id="s6"><transition event="a" target="s7" vid="103"/></state>'
+                         '<state id="s7"/></state></parallel><state id="s3"><transition event="e" target="s4" vid="107"/></state><final id="s4"/></scxml>' % (tg, delay), '65'))
+    return docs
